@@ -7,6 +7,8 @@ use std::collections::BTreeMap;
 pub mod c01;
 pub mod c02;
 pub mod c03;
+pub mod c05;
+pub mod c07;
 pub mod common;
 
 #[derive(Clone, Copy, Debug, PartialEq)]
@@ -94,7 +96,7 @@ pub trait Prop: Sync {
 }
 
 pub fn all() -> Vec<Box<dyn Prop>> {
-    vec![Box::new(c01::C01), Box::new(c02::C02), Box::new(c03::C03)]
+    vec![Box::new(c01::C01), Box::new(c02::C02), Box::new(c03::C03), Box::new(c05::C05), Box::new(c07::C07)]
 }
 
 pub fn by_id(id: &str) -> Option<Box<dyn Prop>> {
